@@ -32,6 +32,13 @@ def endings():
     out.append([('p1', rps.PMGR_ACTIVE)])
     out.append([('p1', rps.FAILED), ('p1', rps.FAILED)])
     out.append([('p1', rps.DONE), ('p2', rps.CANCELED)])
+    # one callback invocation with several pilots (bulk form), every order
+    for fin in (rps.DONE, rps.FAILED):
+        out.append([(('p1', fin), ('p2', rps.PMGR_ACTIVE))])
+        out.append([(('p2', rps.PMGR_ACTIVE), ('p1', fin))])
+        out.append([(('p1', rps.PMGR_ACTIVE), ('p2', fin))])
+        out.append([(('p1', fin), ('p2', fin))])
+    out.append([(('p1', rps.FAILED), ('p2', rps.DONE))])
     return out
 
 
@@ -82,55 +89,66 @@ class World(object):
 def run_case(part, cfg, ending):
 
     w = World(cfg)
-    replay = {'cfg': [list(c) for c in cfg], 'ending': [list(e) for e in ending]}
+    replay = {'cfg': [list(c) for c in cfg], 'ending': ending}
     shape  = lambda uid, pid: '%s:%s' % (
              'own' if w.tasks[uid].pilot == pid else
              'unbound' if not w.tasks[uid].pilot else 'other',
              'final' if before[uid][0] in rps.FINAL else 'live')
 
-    for pid, pstate in ending:
+    for step in ending:
+        if isinstance(step[0], str):
+            step = (step,)
         before = w.snapshot()
-        w.pilots[pid]._state = pstate
+        plist  = list()
+        for pid, pstate in step:
+            w.pilots[pid]._state = pstate
+            plist.append(w.pilots[pid])
         n_pub = len(w.net.pub_log)
         try:
-            w.tm._pilot_state_cb([w.pilots[pid]], pstate)
+            if len(plist) == 1:
+                w.tm._pilot_state_cb(plist, step[0][1])
+            else:
+                w.tm._pilot_state_cb(plist)
             exc = None
         except Exception as e:
             exc = e
         after = w.snapshot()
+        kind  = 'single' if len(step) == 1 else 'bulk'
 
         if exc is not None:
             part.violation('callback-raises|TaskManager._pilot_state_cb|%s'
                            % type(exc).__name__,
-                           {'what': '%r for pilot %s %s' % (exc, pid, pstate)},
+                           {'what': '%r for pilots %s' % (exc, step)},
                            replay)
             continue
 
+        dead = [pid for pid, pstate in step if pstate in rps.FINAL]
         changed = set()
         for uid in UIDS:
             b_state, b_pilot, b_exc, b_det = before[uid]
             a_state, a_pilot, a_exc, a_det = after[uid]
-            own = b_pilot == pid and b_state not in rps.FINAL and \
-                  pstate in rps.FINAL
+            own = b_pilot in dead and b_state not in rps.FINAL
+            pid = b_pilot if own else step[0][0]
             if own:
                 if a_state != rps.FAILED:
-                    part.violation('own-task-not-failed|_pilot_state_cb|%s'
-                                   % b_state,
+                    part.violation('own-task-not-failed|_pilot_state_cb|%s:%s'
+                                   % (b_state, kind),
                                    {'what': '%s bound to dead pilot %s stays %s'
-                                            % (uid, pid, a_state)}, replay)
+                                            ' (callback for %s)'
+                                            % (uid, pid, a_state, step)},
+                                   replay)
                 elif pid not in '%s %s' % (a_exc, a_det):
-                    part.violation('explanation|_pilot_state_cb|-',
+                    part.violation('explanation|_pilot_state_cb|%s' % kind,
                                    {'what': '%s failed without naming %s: '
                                             '%r / %r' % (uid, pid, a_exc, a_det)},
                                    replay)
                 changed.add(uid)
             elif after[uid] != before[uid]:
-                part.violation('bystander-changed|_pilot_state_cb|%s'
-                               % shape(uid, pid),
-                               {'what': '%s (%s) changed from %s to %s when '
-                                        'pilot %s became %s'
-                                        % (uid, shape(uid, pid), before[uid],
-                                           after[uid], pid, pstate)}, replay)
+                part.violation('bystander-changed|_pilot_state_cb|%s:%s'
+                               % (shape(uid, dead[0] if dead else pid), kind),
+                               {'what': '%s changed from %s to %s on callback '
+                                        'for %s' % (uid, before[uid],
+                                                    after[uid], step)}, replay)
 
         published = set()
         for ch, pub, msg in w.net.pub_log[n_pub:]:
@@ -138,13 +156,14 @@ def run_case(part, cfg, ending):
                 for t in msg['arg']:
                     published.add(t['uid'])
         if published != changed:
-            part.violation('published-set|_pilot_state_cb|%s'
-                           % ('extra' if published - changed else 'missing'),
-                           {'what': 'published %s, changed %s for pilot %s %s'
-                                    % (sorted(published), sorted(changed), pid,
-                                       pstate)}, replay)
+            part.violation('published-set|_pilot_state_cb|%s:%s'
+                           % ('extra' if published - changed else 'missing',
+                              kind),
+                           {'what': 'published %s, changed %s for %s'
+                                    % (sorted(published), sorted(changed),
+                                       step)}, replay)
 
-    part.outcome((tuple(cfg), tuple(ending),
+    part.outcome((tuple(cfg), repr(ending),
                   tuple(sorted((u, v[0]) for u, v in w.snapshot().items()))))
 
 
@@ -196,7 +215,8 @@ def replay(ctx, data):
     r = data['replay']
     part = report.Part()
     cfg = [tuple(c) for c in r['cfg']]
-    ending = [tuple(e) for e in r['ending']]
+    ending = [tuple(tuple(x) if isinstance(x, list) else x for x in e)
+              for e in r['ending']]
     run_case(part, cfg, ending)
     print('cfg', cfg, 'ending', ending)
     for k, (d, _) in part.violations.items():
